@@ -214,6 +214,9 @@ def extract_from_template(
 
     def visit_expression(expr: Expression, lineno: int) -> Iterator[MessageTuple]:
         if isinstance(expr, (FilteredExpression, TernaryFilteredExpression)):
+            # The line of the filtered expression itself, which might not be the line
+            # of the expression that contains it.
+            lineno = _line_number(expr.token)
             for _lineno, funcname, message in _extract_from_filters(
                 template.env, expr, lineno, _keywords
             ):
